@@ -127,6 +127,9 @@ func (w *sizeWalker) poly(x ast.Expr) (Poly, error) {
 			}
 			return pAtom("Size(" + s + ")"), nil
 		}
+		if p, is, err := helperSum(info, t, w.e.term); is {
+			return p, err
+		}
 		return nil, und("call %s in size arithmetic", q)
 	}
 	return nil, und("size expression %s", nodeStr(x))
